@@ -250,6 +250,11 @@ func (e *ExitError) Error() string {
 }
 func (e *ExitError) ExitCode() int { return e.Code }
 
+// the methods *exec.ExitError gets from the *os.ProcessState it embeds
+func (e *ExitError) Exited() bool   { return e.Signal == "" }
+func (e *ExitError) Success() bool  { return false }
+func (e *ExitError) String() string { return e.Error() }
+
 // Cmd mirrors the part of exec.Cmd thriftgo can use.
 type Cmd struct {
 	Path   string
@@ -441,6 +446,14 @@ func (c *Cmd) Wait() error {
 		w.block("wait for child " + p.t.id)
 	}
 	c.ProcessState = &ProcessState{code: p.rec.Exit, pid: c.Process.Pid}
+	for _, pp := range c.pipes {
+		// Wait closes the read ends of StdoutPipe / StderrPipe once the child has exited
+		if len(pp.buf) > 0 && !pp.rdClosed {
+			w.Res.Counters["proc.pipe-data-lost-by-wait"]++
+		}
+		pp.rdClosed = true
+		pp.wake()
+	}
 	if p.rec.Killed {
 		c.ProcessState.signal = "killed"
 		if p.signalName != "" {
@@ -495,9 +508,10 @@ func (c *Cmd) String() string { return strings.Join(c.Args, " ") }
 // ---- StdoutPipe / StderrPipe ----
 
 type pipe struct {
-	buf     []byte
-	closed  bool
-	waiters []*task
+	buf      []byte
+	closed   bool
+	rdClosed bool // Wait has closed the parent's read end: what was not read yet is lost (os/exec: "it is incorrect to call Wait before all reads from the pipe have completed")
+	waiters  []*task
 }
 
 type pipeReader struct{ p *pipe }
@@ -602,12 +616,15 @@ func (pr pipeReader) Read(b []byte) (int, error) {
 	if w != nil {
 		w.yield("pipe.read", "")
 	}
-	for len(pr.p.buf) == 0 && !pr.p.closed {
+	for len(pr.p.buf) == 0 && !pr.p.closed && !pr.p.rdClosed {
 		if w == nil {
 			return 0, io.EOF
 		}
 		pr.p.waiters = append(pr.p.waiters, w.cur)
 		w.block("read from child pipe")
+	}
+	if pr.p.rdClosed {
+		return 0, &fs.PathError{Op: "read", Path: "|0", Err: os.ErrClosed}
 	}
 	if len(pr.p.buf) == 0 {
 		return 0, io.EOF
